@@ -121,7 +121,7 @@ static int unhex(const char *h, unsigned char *o) {
 static void one(int c, const char *jobs, const char *slots, const unsigned char *plan, size_t pn, int chunk,
                 const unsigned char *m, size_t n) {
   static int inited;
-  if (!inited) { inited = 1; fnmake_init(); constmap_init(&mapvdoms, "", 0, 1); numjobs = MAXJOBS; job_init();
+  if (!inited) { inited = 1; fnmake_init(); constmap_init(&mapvdoms, "", 0, 1); constmap_init(&maplocals, "", 0, 0); constmap_init(&mappercenthack, "", 0, 0); numjobs = MAXJOBS; job_init();
                  concurrency[0] = concurrency[1] = MAXSLOTS; del_init(); mbuf.n = 0; }
   fprintf(h_out, "D %d %s %s ", c, jobs, slots); h_hex(plan, pn); fprintf(h_out, " %d ", chunk); h_hex(m, n); fputc(' ', h_out);
   /* jobs */
@@ -173,8 +173,17 @@ static const char *recips[] = { "726563697040686f7374", "6c6f63616c", "61400a62"
 static const char *W_JOBS = "1234:3:2:1:0:900000:%d;77:2:1:1:1:900001:%d;5:1:0:0:0:900002:%d";
 static const char *W_SLOTS = "0:11:0:726563697040686f7374;-;0:12:37:61400a62;1:13:5:6c6f63616c";
 
+/* flush the protocol stream if a sanitizer aborts the process, so that the case being run is identified */
+#if defined(__SANITIZE_ADDRESS__)
+void __asan_set_death_callback(void (*cb)(void));
+static void h_death(void) { if (h_out) fflush(h_out); }
+#endif
+
 int main(int argc, char **argv) {
   h_init_out();
+#if defined(__SANITIZE_ADDRESS__)
+  __asan_set_death_callback(h_death);
+#endif
   if (argc > 1 && !strcmp(argv[1], "-")) {
     static char line[900000], jobs[4000], slots[40000], pl[4000], hx[800000], tag[16]; static unsigned char b[400000], pb[2000];
     while (fgets(line, sizeof line, stdin)) {
